@@ -238,3 +238,49 @@ def deep_doc(depth, kind="map"):
 
 def wide_doc(n):
     return "{" + ", ".join("k%d: %d" % (i, i) for i in range(n)) + "}"
+
+
+def gen_doc_tree(rng, regime=None, **kw):
+    """Like gen_doc but returns the tree, for callers that choose the rendering (flow / block)."""
+    if regime is None:
+        regime = rng.choice(["N", "N", "U", "U", "A"])
+    g = DocGen(rng, regime, **kw)
+    return g.tree(0, want=rng.choice(["map", "map", "map", "seq", "aoh", None])), regime
+
+
+def render_block(t, indent=0):
+    """Block-style YAML text of a tree (empty containers and sets stay in flow form)."""
+    pad = "  " * indent
+    k = t[0]
+    if k == "map":
+        if not t[1]:
+            return pad + "{}\n"
+        out = []
+        for key, v in t[1]:
+            if is_inline(v):
+                out.append("%s%s: %s\n" % (pad, rk(key), render(v)))
+            else:
+                out.append("%s%s:\n%s" % (pad, rk(key), render_block(v, indent + 1)))
+        return "".join(out)
+    if k == "seq":
+        if not t[1]:
+            return pad + "[]\n"
+        out = []
+        for v in t[1]:
+            if is_inline(v):
+                out.append("%s- %s\n" % (pad, render(v)))
+            else:
+                body = render_block(v, indent + 1)
+                # first line of the nested block joins the dash
+                out.append("%s- %s" % (pad, body[len(pad) + 2:]))
+        return "".join(out)
+    return pad + render(t) + "\n"
+
+
+def is_inline(t):
+    k = t[0]
+    if k in ("s", "ali", "set"):
+        return True
+    if k == "anc":
+        return is_inline(t[2])
+    return not t[1]          # empty containers are written {} / []
